@@ -205,12 +205,12 @@ Proof.
        inv_ok H; apply Fin;
        eapply sba_trans; [exact Sx|eapply sba_trans; [eapply low_cval_sba; eauto|apply sba_release_all]]).
   - (* SLoop *) intros cb v oreg start stop step body IH Hw st code st' ar H F.
-    destruct oreg; [discriminate|]. cbn [wfs] in Hw. apply andb_prop in Hw. destruct Hw as [Hw _].
+    cbn [wfs] in Hw. apply andb_prop in Hw. destruct Hw as [Hw _].
     apply andb_prop in Hw. destruct Hw as [_ Hwf]. cbn [lower_stmt] in H.
     destruct (alook v (l_lv st)); [discriminate|].
-    destruct (take st) as [[r s1]|] eqn:Ht; cbn [bind] in H; [|discriminate].
+    destruct (take_at oreg st) as [[r s1]|] eqn:Ht; cbn [bind] in H; [|discriminate].
     destruct (lower_block true body (bind_lvr v r s1)) as [[cbody s2]|] eqn:Hb; cbn [bind] in H; [|discriminate].
-    destruct (sba_take _ _ _ Ht) as (_ & _ & N0 & _ & _ & _ & Le0 & D0).
+    destruct (sba_take_at _ _ _ _ Ht) as (_ & _ & N0 & _ & _ & _ & Le0 & D0).
     destruct (IH Hwf _ _ _ ar Hb) as (ds & D1 & H1 & F1 & W1 & Ln1); [cbn; rewrite N0; exact F|].
     cbn in D1, F1, W1, Ln1. rewrite N0 in W1. exists ds. destruct (is_nil cbody); inv_ok H; cbn; rewrite D1, D0, Ln1, Le0; auto.
   - (* SForeach *) intros enum v a body IH Hw st code st' ar H F.
@@ -246,8 +246,24 @@ Proof.
       rewrite Ln2, Le3, Ln1, Le0, rev_app_distr, map_app, app_assoc. reflexivity.
   - intros k body IH Hw. discriminate.
   - intros Hw. discriminate.
-  - intros a b n o m Hw. discriminate.
-  - intros q ip a b n Hw. discriminate.
+  - (* SFutAddX *) intros a b n o m _ st c st' ar H F. cbn [lower_stmt] in H.
+    destruct (take st) as [[t s1]|] eqn:Ht; cbn [bind] in H; [|discriminate].
+    destruct (take s1) as [[ti s1i]|] eqn:Hti; cbn [bind] in H; [|discriminate].
+    destruct (low_src o (release ti s1i)) as [[[[lo y] ts] s2]|] eqn:Hs; cbn [bind] in H; [|discriminate].
+    match type of H with Ok (_, ?X) = _ => assert (Es : st' = X) by (inversion H; reflexivity) end.
+    assert (S : sba st st').
+    { rewrite Es. eapply sba_trans; [eapply sba_take; eauto|].
+      eapply sba_trans; [eapply sba_take; eauto|].
+      eapply sba_trans; [apply sba_release|].
+      eapply sba_trans; [eapply low_src_sba; eauto|].
+      eapply sba_trans; [apply sba_release|apply sba_release_all]. }
+    destruct S as (_ & _ & N & _ & _ & _ & Le & D). apply hf_nothing; auto.
+  - (* SMeasFutX *) intros q ip a b n _ st c st' ar H F. cbn [lower_stmt] in H.
+    destruct (low_meas q ip false st) as [[[m c0] s1]|] eqn:Em; cbn [bind] in H; [|discriminate].
+    destruct (take s1) as [[ti s1i]|] eqn:Hti; cbn [bind] in H; [|discriminate]. inv_ok H.
+    destruct (low_meas_facts _ _ _ _ _ _ _ Em) as (id & _ & _ & _ & _ & N1 & _ & _ & Le1 & D1 & _).
+    assert (S : sba s1 (release ti s1i)) by (eapply sba_trans; [eapply sba_take; eauto|apply sba_release]).
+    destruct S as (_ & _ & N & _ & _ & _ & Le & D). apply hf_nothing; auto; congruence.
   - intros _ st c st' ar H F. inv_ok H. exists []. rewrite app_nil_r. cbn. split; [auto|split; [auto|split; [auto|split; [apply dwf_nil|reflexivity]]]].
   - intros s IHs b IHb Hw st c st' ar H F. cbn [bwfs] in Hw.
     apply andb_prop in Hw. destruct Hw as [Hw1 Hw2].
